@@ -101,6 +101,8 @@ def arg_tensor(kind, aid, n, batch=()):
 
 
 def index_of(aid, n):
+    if n <= 1:
+        return slice(0, n)          # never derive an empty (0 x 0) operator
     return slice(1, n) if aid % 2 == 0 else slice(0, n - 1)
 
 
